@@ -19,7 +19,7 @@ META = {
         "exhaustive: every permutation up to the tier's bound for the devices, the sortable predicates, their "
         "pattern characterisations, the sort counts and the family predicates; per length the whole Simion-Schmidt "
         "map (image, injectivity, fixed left-to-right minima, inverse, rejection outside either domain); generated "
-        "permutations of length 8-11 for the cheap parts. Oracle: devices simulated with real containers, "
+        "permutations of length 8-11 for the cheap parts; disturbed histories: a call after an earlier call that was aborted at a generated line by an asynchronous exception, and 2-4 calls overlapping in time under an owned schedule (every line of perm.py a preemption point), each compared with the undisturbed oracle value. Oracle: devices simulated with real containers, "
         "characterisations by reference containment (cross-checked against the devices in the self-test), family "
         "definitions on positions/values, Young tableau shape through Greene's theorem. Non-trivial: length >= 4. "
         "Distinct = case content."
@@ -257,7 +257,77 @@ def check_simion_schmidt(case):
     return OK(n >= 3, "simion_schmidt", key=f"ss{n}")
 
 
-CHECKS = {"perm": check_perm, "dihedral_group": check_dihedral_group, "simion_schmidt": check_simion_schmidt, "affine": check_affine}
+# ------------------------------------------------------------------ disturbed histories
+def _ident(q):
+    return q == tuple(range(len(q)))
+
+
+OPS = {
+    "stack_sort": (lambda P: tuple(P.stack_sort()), S.stack_pass),
+    "pop_stack_sort": (lambda P: tuple(P.pop_stack_sort()), S.pop_stack_pass),
+    "bubble_sort": (lambda P: tuple(P.bubble_sort()), bubble_pass),
+    "quick_sort": (lambda P: tuple(P.quick_sort()), quick_pass),
+    "stack_sortable": (lambda P: P.stack_sortable(), lambda p: _ident(S.stack_pass(p))),
+    "pop_stack_sortable": (lambda P: P.pop_stack_sortable(), lambda p: _ident(S.pop_stack_pass(p))),
+    "bubble_sortable": (lambda P: P.bubble_sortable(), lambda p: _ident(bubble_pass(p))),
+    "quick_sortable": (lambda P: P.quick_sortable(), lambda p: _ident(quick_pass(p))),
+    "west_2_stack_sortable": (lambda P: P.west_2_stack_sortable(), lambda p: _ident(S.stack_pass(S.stack_pass(p)))),
+    "west_3_stack_sortable": (lambda P: P.west_3_stack_sortable(), lambda p: _ident(S.stack_pass(S.stack_pass(S.stack_pass(p))))),
+    "count_stack_sorts": (lambda P: P.count_stack_sorts(), lambda p: S.passes(p, S.stack_pass)),
+    "count_pop_stack_sorts": (lambda P: P.count_pop_stack_sorts(), lambda p: S.passes(p, S.pop_stack_pass)),
+    "baxter": (pp.baxter, baxter),
+    "simsun": (pp.simsun, simsun),
+    "forest_like": (pp.forest_like, forest_like),
+}
+import permuta.patterns.perm as _perm_mod  # noqa: E402
+
+TRACE_FILES = {_perm_mod.__file__, pp.__file__}
+LINE_BUDGET = 400000  # a single call on a permutation of length <= 10 executes a few thousand traced lines
+
+
+def check_disturbed(case):
+    """The operators are functions of their argument alone: they give the same output after an
+    earlier call was aborted part-way (an asynchronous exception at a generated line) and while
+    other calls are running in other threads (generated interleaving, every line of perm.py a
+    preemption point).  case: {"mode": "abort", "first": [op, perm], "k": int, "then": [[op, perm]..]}
+    or {"mode": "threads", "calls": [[op, perm]..], "choices": [..]}"""
+    from .. import disturb
+
+    def lib_call(op, perm):
+        return lambda: OPS[op][0](Perm(perm))
+
+    def want(op, perm):
+        return OPS[op][1](tuple(perm))
+
+    if case["mode"] == "abort":
+        op, perm = case["first"]
+        status, val, lines = disturb.abort_at(lib_call(op, perm), TRACE_FILES, case["k"])
+        if status == "done" and val != want(op, perm):
+            return BAD("undisturbed_" + op, {"perm": perm, "got": val})
+        for op2, perm2 in case["then"]:
+            st2, got = disturb.bounded(lib_call(op2, perm2), TRACE_FILES, LINE_BUDGET)
+            if st2 == "budget":
+                return BAD("no_termination_after_aborted_call", {"aborted": [op, perm, case["k"]], "call": [op2, perm2], "line_budget": LINE_BUDGET})
+            if got != want(op2, perm2):
+                return BAD("wrong_after_aborted_call", {"aborted": [op, perm, case["k"]], "call": [op2, perm2], "got": got, "want": want(op2, perm2)})
+        return OK(status == "aborted" and lines >= 3, "abort_mid_call" if status == "aborted" else "abort_point_beyond_call")
+    calls = case["calls"]
+    s, stalled = disturb.interleave([lib_call(op, perm) for op, perm in calls], TRACE_FILES, case["choices"])
+    if stalled:
+        raise engine.HarnessError("C12 disturbed: scheduler stalled")
+    if s.overrun:
+        return BAD("no_termination_under_interleaving", {"calls": calls})
+    for i, ((op, perm), (status, got)) in enumerate(zip(calls, s.results)):
+        if status == "exc":
+            if not engine.is_lib_exception(s.exceptions[i]):
+                raise engine.HarnessError(f"C12 disturbed: harness exception {got}")
+            return BAD("exception_under_interleaving", {"call": [op, perm], "exc": got, "switches": s.switches})
+        if status != "ok" or got != want(op, perm):
+            return BAD("wrong_under_interleaving", {"call": [op, perm], "got": got, "want": want(op, perm), "switches": s.switches})
+    return OK(s.switches >= 2, "interleaved", key=engine.jdump(calls) + "|" + str(hash(tuple(s.trace))))
+
+
+CHECKS = {"disturbed": check_disturbed, "perm": check_perm, "dihedral_group": check_dihedral_group, "simion_schmidt": check_simion_schmidt, "affine": check_affine}
 
 
 def shard_perms(acc, shard, nshards, max_n):
@@ -271,7 +341,24 @@ def shard_perms(acc, shard, nshards, max_n):
             acc.record("dihedral_group", check_dihedral_group, n)
 
 
+@st.composite
+def disturbed_cases(draw):
+    call = st.tuples(st.sampled_from(sorted(OPS)), gen.perms(3, 9).map(list)).map(list)
+    if draw(st.booleans()):
+        return {"mode": "abort", "first": draw(call), "k": draw(st.integers(1, 120)), "then": draw(st.lists(call, min_size=1, max_size=3))}
+    calls = draw(st.lists(call, min_size=2, max_size=4))
+    style = draw(st.sampled_from(["uniform", "bursty"]))
+    if style == "uniform":
+        choices = draw(st.lists(st.integers(0, 3), min_size=20, max_size=400))
+    else:
+        choices = []
+        for _ in range(draw(st.integers(2, 30))):
+            choices.extend([draw(st.integers(0, 3))] * draw(st.integers(1, 40)))
+    return {"mode": "threads", "calls": calls, "choices": choices}
+
+
 def shard_generated(acc, shard, nshards, n_perm):
+    engine.hyp_run(acc, "disturbed", check_disturbed, disturbed_cases(), n_perm, shard)
     engine.hyp_run(acc, "perm", check_perm, gen.perms(8, 11).map(list), n_perm, shard)
     for n in range(3, 31):
         if n % nshards == shard:
